@@ -9,7 +9,7 @@ from .common import (declare_cond, make_cond, cond_spec_params, spec_cond_logpdf
                      density_is_normalised_claims, gt)
 
 
-CTOR_VARIANTS = (("viaL",), ("upd",), ("viaSL",), ("pxdiag",), ("pxSL",))
+CTOR_VARIANTS = (("viaL",), ("upd",), ("updw",), ("viaSL",), ("pxdiag",), ("pxSL",))
 
 
 def make_prior(A):
@@ -43,7 +43,7 @@ def prior_decl(b, Rx, Dx, semi=None):
 def cond_decl(b, kind, Rc, Dy, Dx, semi=None):
     """declare the conditional, optionally binding blocks to generic rationals (semi-symbolic).
     Pseudo-blocks: "viaL" (construct from the precision only), "viaSL" (from covariance and precision together), "upd"
-    (update_Sigma after construction); for the prior: "pxdiag" (GaussianDiagPDF), "pxSL" (built from Sigma= and Lambda=)."""
+    (update_Sigma after construction), "updw" (update_Sigma after the object has been used: set_y, condition_on_x, ...); for the prior: "pxdiag" (GaussianDiagPDF), "pxSL" (built from Sigma= and Lambda=)."""
     semi = semi or ()
     _cond_decl(b, kind, Rc, Dy, Dx, semi)
     R_ = 1 if kind == "nncontrol" else Rc
@@ -53,8 +53,10 @@ def cond_decl(b, kind, Rc, Dy, Dx, semi=None):
     if "viaSL" in semi:
         from .c02 import _inv_of
         b.derived("c_Lboth", (R_, Dy, Dy), _inv_of("c_S", R_, Dy))
-    if "upd" in semi:
+    if "upd" in semi or "updw" in semi:
         (b.diag if "diag" in kind else b.spd)("c_S2", R_, Dy)
+    if "updw" in semi:
+        b.const("c_warm", np.array([Fraction(1)], dtype=object))
 
 
 def _cond_decl(b, kind, Rc, Dy, Dx, semi):
